@@ -80,6 +80,15 @@ PROPS = {
             'DeliveryFut::poll (Pin/poll) and interleaving of dispositions with further sends are not decided',
             'that UnsettledMessage::settle_with_state is actually invoked on the entry removed by LinkRelay::on_incoming_disposition is visible in the extracted text but is not an obligation: a by-value call leaves no ghost trace; what IS proved: the entry removed is the one under the disposition\'s tag, and settle_with_state resolves its own channel with exactly the state given']),
     'C03': dict(
+        probes=[
+            dict(name='rt_value_classes', kind='agreement', target='serde_amqp::{to_vec,from_slice}::<Value>', args=['C03.value-rt'],
+                 claim='from_slice(to_vec(v)) == v for untyped values: every leaf class (all primitive types, strings/symbols/binaries on both sides of the 255/256 width boundary, non-ASCII text), every compound wrapper of a leaf (array of 1/2/3/300, list, map as key and as value, described by code and by name) and every wrapper of those (nesting depth 2), outside the two input classes of findings D18 / D19',
+                 bound='3011 values: 37 leaves x 9 wrappers x 9 wrappers, fixed sample data per leaf class'),
+            dict(name='rt_array_of_described', kind='agreement', target='serde_amqp::{to_vec,from_slice}::<Value>', args=['C03.array-of-described'],
+                 claim='the same round trip for the values in which an array of described values occurs', bound='296 values (as above, restricted to that class)'),
+            dict(name='rt_array_of_zero_width', kind='agreement', target='serde_amqp::{to_vec,from_slice}::<Value>', args=['C03.array-of-zero-width'],
+                 claim='the same round trip for the values in which an array of two or more zero-width elements (null, empty list) occurs', bound='30 values (as above, restricted to that class)'),
+        ],
         units=['SERHDR', 'SERSTR', 'READERS', 'MESSAGE', 'SEQACCESS'], kani=K_RT, level='proof', title='Codec round trip (fixed- and variable-width primitives, compound headers)',
         lemmas={'READERS': ['lemma_var_round_trip', 'lemma_be32_inverse'], 'MESSAGE': ['lemma_message_round_trip', 'lemma_run', 'lemma_fold_concat', 'lemma_fold_opt']},
         assumptions=[VARW,
